@@ -318,6 +318,8 @@ impl<'a> Job for BuildJob<'a> {
             // small, fixed-size options so that enumeration stays affordable
             let o = &case.options;
             let q = [2usize, 3, 4, 6][self.ch.index("base.q", 4)].min(case.shape.len() * o.blowup_factor() - 1);
+            // flavour 4: a single query - every commitment is opened at exactly one position
+            let q = if self.flavour == 4 { 1 } else { q };
             let blow = o.blowup_factor().min(4).max(case.shape.min_blowup());
             let fo = o.to_fri_options();
             let (mut f, mut r) = (fo.folding_factor(), fo.remainder_max_degree().min(7));
@@ -395,6 +397,15 @@ pub fn bases(seed: u64) -> &'static [Box<dyn Base>] {
                     out.push(b);
                 }
             }
+        }
+    }
+    // appended after the others so that their indexes (and the replays that name them) stay valid:
+    // single-query proofs on the three cheap hashers
+    for ci in 0..3usize {
+        k += 1;
+        let mut ch = Chooser::record(simcore::rng::stream(seed, "hostile-bases", k));
+        if let Some(b) = dispatch(CONFIGS[ci], BuildJob { ch: &mut ch, cfg: CONFIGS[ci], ext: exts[ci % 3], flavour: 4, force: None, constant: false }) {
+            out.push(b);
         }
     }
     let leaked: &'static [Box<dyn Base>] = Box::leak(out.into_boxed_slice());
